@@ -4,6 +4,8 @@
 //!       writes DIR/<stream>.ops (requests), DIR/<stream>.impl (implementation responses) and
 //!       DIR/<stream>.meta.json (distribution, oracle failures)
 //!   zvh run <stream>            requests on stdin → implementation responses on stdout (replay)
+mod mkzip;
+mod pkware;
 mod prng;
 mod streams;
 mod util;
@@ -12,7 +14,9 @@ use std::collections::{BTreeMap, HashSet};
 use std::io::{BufRead, Write};
 
 fn main() {
-    std::panic::set_hook(Box::new(|_| {}));
+    if std::env::var("ZVH_DEBUG").is_err() {
+        std::panic::set_hook(Box::new(|_| {}));
+    }
     let args: Vec<String> = std::env::args().collect();
     if args.len() < 3 {
         eprintln!("usage: zvh gen|run <stream> [--seed N] [--tier T] [--out DIR]");
